@@ -13,9 +13,9 @@ EXPLANATION = ('Error discipline at the race-exposed call sites (applied to path
                'Err outcome is tested by the absence classifier (or, for link, against AlreadyExists) on that very error and '
                'the true edge reaches an Ok exit with no Err exit carrying the error ("absent => benign"); best-effort sites '
                'never surface their error at all; a failed first publish attempt leads to mkdir + one retry; the classifier '
-               'itself answers true for kind()==NotFound and raw_os_error()==ESTALE (evaluated constant); no panic is reachable '
+               '(R05.x) every execution of an exclusive link onto directory+key has its own AlreadyExists test or its error never reaches the caller; the classifier itself answers true for kind()==NotFound and raw_os_error()==ESTALE (evaluated constant); no panic is reachable '
                'only below the Err outcome of such a site. That every schedule is error-free is not decided.')
-FLOORS = {'R05.m': 4, 'R05.t': 20, 'R05.9': 2, 'R05.c': 3, 'R05.d': 1}
+FLOORS = {'R05.m': 4, 'R05.t': 20, 'R05.9': 2, 'R05.c': 3, 'R05.d': 1, 'R05.x': 2}
 
 TABLE = [
     ('#1 evictee vanished', r'.*', r'^std::fs::remove_file\((Base|Value)/Listed\)$', 'benign'),
@@ -199,9 +199,50 @@ def r05_d(ctx):
     return out
 
 
+def r05_x(ctx):
+    """every execution of an exclusive link onto (directory + key) has its *own* AlreadyExists test: the site table groups
+    call sites by description, so a second `hard_link(from, to)?` added next to a tolerant one used to hide behind it.
+    A peer may publish the same key between any two of our steps, so each exclusive link must tolerate EEXIST."""
+    out = []
+    recs = sites.analyse(ctx, sites.lower_entries(ctx) + sites.stack_level_entries(ctx))
+    for rec in recs:
+        if rec['cls'] != 'publish_excl' or not re.search(r'\((Base|Value)/Key\)$', rec['site']):
+            continue
+        q = rec['q']
+        errs = q.terminals(lambda ev: ev['k'] == 'ret' and ev.get('variant') == 'Err')
+        by_span = {}
+        for e in rec['edges']:
+            by_span.setdefault(q.E[e][2]['site'][2], []).append(e)
+        for span, edges in sorted(by_span.items()):
+            bad = None
+            n = 0
+            for e in edges:
+                ev = q.E[e][2]
+                ee = sites.refines(q, sites.result_value(ev), 'Err')
+                ben = sites.benign_edges(ctx, q, ev)
+                if ben:
+                    n += 1
+                    continue
+                # no AlreadyExists test on this execution's error: fine only if the error cannot reach the caller
+                errv = sites.err_value(ev)
+                rv = sites.result_value(ev)
+                start = [q.E[x][1] for x in ee] if ee else [q.E[e][1]]
+                r = q.reach_fwd(start)
+                if any(t in r and (q.g.term[t]['val'] == rv or errv in values.subs(q.g.term[t]['val'])) for t in errs):
+                    bad = e
+                    break
+            out.append(inst('R05.x', '%s|%s|%s' % (rec['entry'], rec['site'], 'site#%d' % sorted(by_span).index(span)),
+                            bad is None,
+                            'exclusive link tolerates a concurrent publisher (AlreadyExists tested on %d executions)' % n if bad is None else
+                            '%s at %s: its AlreadyExists error is returned to the caller untested -- a peer that publishes the same key '
+                            'between our steps surfaces as an error' % (rec['site'], span),
+                            path=witness_path(q, bad) if bad is not None else []))
+    return out
+
+
 def run(ctx):
     from runner import collect
-    return collect(ctx, r05_t, r05_m, r05_9, r05_c, r05_d)
+    return collect(ctx, r05_t, r05_m, r05_x, r05_9, r05_c, r05_d)
 
 
 THOROUGH_FLOORS = {'E05.t': 60}
